@@ -12,9 +12,11 @@ import (
 	"os/exec"
 	"path/filepath"
 	"reflect"
+	"runtime"
 	"sort"
 	"strconv"
 	"strings"
+	"time"
 )
 
 // Input is one recorded input value (mirrors the engine's InputRec).
@@ -53,8 +55,12 @@ type AssumeFailed struct{}
 // Begin starts a native replay with the given inputs.
 func Begin(inputs []Input) *State {
 	st = &State{Inputs: inputs}
+	// goroutines alive before the harness starts, plus the one it runs on
+	baseline = runtime.NumGoroutine() + 1
 	return st
 }
+
+var baseline int
 
 func next(kind, name string) Input {
 	if st == nil {
@@ -122,9 +128,23 @@ func Record(label string, v any) { st.Records = append(st.Records, Obs{label, Re
 func Symbolic() bool { return false }
 
 // Quiesce lets all other goroutines run until none can progress and returns
-// how many have not finished. Natively this cannot be observed directly; the
-// harness-specific replay uses a watchdog instead.
-func Quiesce() int { return 0 }
+// how many have not finished.
+func Quiesce() int {
+	// natively: wait (up to 3 s) until the goroutines started since the harness
+	// began have finished - e.g. ParseFile's reader goroutine, which calls
+	// Close after ParseFile has returned
+	deadline := time.Now().Add(3 * time.Second)
+	for {
+		n := runtime.NumGoroutine() - baseline
+		if n <= 0 {
+			return 0
+		}
+		if time.Now().After(deadline) {
+			return n
+		}
+		time.Sleep(200 * time.Microsecond)
+	}
+}
 
 func OutOfModel(what string) {}
 
